@@ -267,7 +267,7 @@ func runVT(idx int, beh behaviour, seed int64) *caseRec {
 	unit := vtTimeout / 2
 	r := &caseRec{Ev: "Case", Beh: idx, C: 1, Hs: sc.Hs, Tk: sc.Tk, Cipher: cc.plan.Key.cipher, NKeys: nk, KeyPos: pos, KeyID: cc.plan.Key.id,
 		Replay: replayOn, Atyp: atyp, Variant: cc.plan.Variant, TimeoutMs: int(vtTimeout / time.Millisecond), CfinAt: -1, PreDoneAt: -1, LastSendAt: -1,
-		CloseAt: -1, AcceptAt: -1, AddrDoneAt: -1, Csent: []tokOut{}, Tlog: []int{}, Clog: []int{}, Mlog: []mrec{}, Snaps: []snap{}, Stalls: []string{},
+		CloseAt: -1, AcceptAt: -1, AddrDoneAt: -1, Script: []scriptStep{}, Csent: []tokOut{}, Tlog: []int{}, Clog: []int{}, Mlog: []mrec{}, Snaps: []snap{}, Stalls: []string{},
 		DialAddrs: []string{}, StallKinds: []string{}}
 	cc.rec = r
 	var cli *memConn
@@ -281,6 +281,7 @@ func runVT(idx int, beh behaviour, seed int64) *caseRec {
 			AddrDoneAt: cc.addrDoneAt, StallKinds: append([]string{}, cc.stallKinds...)}
 		b.mu.Unlock()
 		r.Snaps = append(r.Snaps, s)
+		addStep(cc, e, s)
 	}
 	holds := func(e event) bool {
 		b.mu.Lock()
@@ -504,6 +505,16 @@ func runVT(idx int, beh behaviour, seed int64) *caseRec {
 		b.mu.Lock()
 		handled = b.get(1).handled
 		b.mu.Unlock()
+		if !handled && tsrv != nil && !cc.tfin && !cc.trst {
+			takeSnap(len(beh.Tr), event{A: "EndTFin", C: 1})
+			cc.tfin = true
+			cc.tfinPolite = true
+			tsrv.CloseWrite()
+			synctest.Wait()
+		}
+		b.mu.Lock()
+		handled = b.get(1).handled
+		b.mu.Unlock()
 		if !handled {
 			time.Sleep(2 * vtTimeout) // nothing but a timer can still end it
 			synctest.Wait()
@@ -532,6 +543,7 @@ func runVT(idx int, beh behaviour, seed int64) *caseRec {
 	r.Clog = append(r.Clog, o.clog...)
 	r.Mlog = append(r.Mlog, o.mlog...)
 	r.Dials = o.dials
+	r.Handled = o.handled
 	r.DialAddrs = append(r.DialAddrs, o.dialAddrs...)
 	r.AcceptAt, r.CloseAt = o.acceptAt, o.closeAt
 	r.CfinAt, r.PreDoneAt, r.LastSendAt, r.AddrDoneAt = cc.cfinAt, cc.preDoneAt, cc.lastSendAt, cc.addrDoneAt
